@@ -373,6 +373,14 @@ func (g *c18g) bytesLevel(it *c18item, b c18budget, ts []c18tlv, guard map[int]b
 			}
 		}
 	}
+	if it.form == c18fTLS && n >= 4 {
+		// inner vectors ending in 1..3 stray bytes while every enclosing length stays consistent
+		for depth := 1; depth <= 5; depth++ {
+			for k := 1; k <= 3; k++ {
+				g.op(it, tlsTrailJunk(d, k, depth))
+			}
+		}
+	}
 	for _, c := range cuts {
 		g.op(it, d[:c])
 		if it.form == c18fTLS && c >= 4 {
@@ -654,6 +662,14 @@ func c18corpus(r *rng) []*c18item {
 	p7mu.Unlock()
 	c18must(err)
 	p7s = append(p7s, e3)
+	// the BER streaming form: encrypted content in several OCTET STRING segments (incl. an empty one)
+	for _, e := range [][]byte{p7s[0], p7s[1], p7s[3]} {
+		for _, parts := range []int{2, 4} {
+			if ch, ok := chunkedEnvelope(e, parts); ok {
+				p7s = append(p7s, ch)
+			}
+		}
+	}
 	sdb, err := x509.NewSignedData(r.bytes(30))
 	c18must(err)
 	c18must(sdb.AddSigner(f.rsaCert, f.rsaKey, x509.SignerInfoConfig{}))
